@@ -1818,3 +1818,130 @@ VARIANTS += [
       replace=_EXEC_EARLY.replace('if len(capabilitiesToVerify) == 0 {', 'if len(capabilitiesToVerify) == 0 || len(trustedIdentities) == 0 {'),
       why='early-return shape with the property broken: without trusted identities in the policy the plugin is not run although asked'),
 ]
+
+# ---- guard-mutation pass: the result that receives the plugin's identity verdict (verifier.go:667) ---------------------------
+_LOOKUP_OLD = '''				var authenticityResult *notation.ValidationResult
+				for _, r := range outcome.VerificationResults {
+					if r.Type == trustpolicy.TypeAuthenticity {
+						authenticityResult = r
+						break
+					}
+				}
+'''
+_LOOKUP_TEST = 'if r.Type == trustpolicy.TypeAuthenticity {'
+_LOOKUP_CONTINUE = '''				var authenticityResult *notation.ValidationResult
+				for _, r := range outcome.VerificationResults {
+					if r.Type != trustpolicy.TypeAuthenticity {
+						continue
+					}
+					authenticityResult = r
+					break
+				}
+'''
+_LOOKUP_SWITCH = '''				var authenticityResult *notation.ValidationResult
+			search:
+				for _, r := range outcome.VerificationResults {
+					switch r.Type {
+					case trustpolicy.TypeAuthenticity:
+						authenticityResult = r
+						break search
+					}
+				}
+'''
+_LOOKUP_INDEX = '''				var authenticityResult *notation.ValidationResult
+				for i := range outcome.VerificationResults {
+					if outcome.VerificationResults[i].Type == trustpolicy.TypeAuthenticity {
+						authenticityResult = outcome.VerificationResults[i]
+						break
+					}
+				}
+'''
+_LOOKUP_CALL = '''				authenticityResult := firstResultOfType(outcome.VerificationResults, trustpolicy.TypeAuthenticity)
+'''
+_LOOKUP_HELPER = '''// firstResultOfType returns the first result of the given validation type, or
+// nil if there is none.
+func firstResultOfType(results []*notation.ValidationResult, validationType trustpolicy.ValidationType) *notation.ValidationResult {
+	for _, r := range results {
+		if r.Type == validationType {
+			return r
+		}
+	}
+	return nil
+}
+
+'''
+_VI_ANCHOR = 'func verifyIntegrity(sigBlob []byte'
+def result_lookup_shape(call=_LOOKUP_CALL, helper=_LOOKUP_HELPER):
+    return [(V, _LOOKUP_OLD, call), (V, _VI_ANCHOR, helper + _VI_ANCHOR)]
+_REV_FAIL_OLD = '''					Error:  fmt.Errorf("revocation check by verification plugin %q failed with reason %q", verificationPluginName, pluginResult.Reason),
+					Type:   trustpolicy.TypeRevocation,
+					Action: outcome.VerificationLevel.Enforcement[trustpolicy.TypeRevocation],
+'''
+VARIANTS += [
+ dict(name='gm-authenticity-result-lookup-never-taken', expect='flagged(plugin/verdict-trusted-identity/result-type)', file=V,
+      find=_LOOKUP_TEST, replace='if false && (r.Type == trustpolicy.TypeAuthenticity) {',
+      why='the search never selects the authenticity result: the failed identity verdict is recorded nowhere (guard mutant verifier.go:667)'),
+ dict(name='gm-authenticity-result-lookup-extra-conjunct', expect='flagged(plugin/verdict-trusted-identity/result-type)', file=V,
+      find=_LOOKUP_TEST, replace='if r.Error != nil && r.Type == trustpolicy.TypeAuthenticity {',
+      why='the authenticity result is found only if the trust-store validation already failed'),
+ dict(name='gm-authenticity-result-lookup-count-conjunct', expect='flagged(plugin/verdict-trusted-identity/result-type)', file=V,
+      find=_LOOKUP_TEST, replace='if len(outcome.VerificationResults) > 2 && r.Type == trustpolicy.TypeAuthenticity {',
+      why='the authenticity result is found only among more than two results'),
+ dict(name='gm-authenticity-result-lookup-other-type', expect='flagged(plugin/verdict-trusted-identity/result-type)', file=V,
+      find=_LOOKUP_TEST, replace='if r.Type == trustpolicy.TypeIntegrity {',
+      why='the identity failure is stored into the integrity result: it is gated by the action of integrity (always enforce), also under audit'),
+ dict(name='gm-authenticity-result-lookup-any-result', expect='flagged(plugin/verdict-trusted-identity/result-type)', file=V,
+      find=_LOOKUP_TEST, replace='if r.Type == trustpolicy.TypeAuthenticity || r.Error == nil {',
+      why='the first result without an error is taken, whatever its type'),
+ dict(name='benign-gm-authenticity-result-lookup-operands-swapped', expect='silent', file=V,
+      find=_LOOKUP_TEST, replace='if trustpolicy.TypeAuthenticity == r.Type {', why='the same test, operands swapped'),
+ dict(name='benign-gm-authenticity-result-lookup-continue', expect='silent', file=V, find=_LOOKUP_OLD, replace=_LOOKUP_CONTINUE,
+      why='the same search with the test inverted and `continue`'),
+ dict(name='benign-gm-authenticity-result-lookup-switch', expect='silent', file=V, find=_LOOKUP_OLD, replace=_LOOKUP_SWITCH,
+      why='the same search with a switch on the type and a labelled break'),
+ dict(name='benign-gm-authenticity-result-lookup-by-index', expect='silent', file=V, find=_LOOKUP_OLD, replace=_LOOKUP_INDEX,
+      why='the same search by index: the element is read twice'),
+ dict(name='benign-gm-authenticity-result-lookup-helper', expect='silent', edits=result_lookup_shape(),
+      why='the search in a helper that is handed the list and the type'),
+ dict(name='gm-authenticity-result-lookup-helper-extra-conjunct', expect='flagged(plugin/verdict-trusted-identity/result-type)',
+      edits=result_lookup_shape(helper=_LOOKUP_HELPER.replace('if r.Type == validationType {', 'if r.Error != nil && r.Type == validationType {')),
+      why='helper shape with the guard weakened'),
+ dict(name='gm-authenticity-result-lookup-helper-other-type', expect='flagged(plugin/verdict-trusted-identity/result-type)',
+      edits=result_lookup_shape(call=_LOOKUP_CALL.replace('trustpolicy.TypeAuthenticity', 'trustpolicy.TypeIntegrity')),
+      why='helper shape, asked for the integrity result'),
+ dict(name='gm-authenticity-result-lookup-continue-extra-disjunct', expect='flagged(plugin/verdict-trusted-identity/result-type)', file=V, find=_LOOKUP_OLD,
+      replace=_LOOKUP_CONTINUE.replace('if r.Type != trustpolicy.TypeAuthenticity {', 'if r.Error == nil || r.Type != trustpolicy.TypeAuthenticity {'),
+      why='continue shape: an authenticity result without an error is passed over'),
+ dict(name='gm-plugin-revocation-verdict-result-of-other-type', expect='flagged(plugin/verdict-revocation/result-type)', file=V, find=_REV_FAIL_OLD,
+      replace=_REV_FAIL_OLD.replace('trustpolicy.TypeRevocation', 'trustpolicy.TypeAuthenticity'),
+      why='the failed revocation verdict is reported as an authenticity result with the action of authenticity: the revocation action of the level does not decide'),
+]
+
+# ---- guard-mutation pass: the minimum-version attribute is valid semver (helpers.go:128) -------------------------------------
+_MV_VALID = '\tif !notationsemver.IsValid(version) {\n\t\treturn "", fmt.Errorf("%v from extended attribute is not a valid SemVer", HeaderVerificationPluginMinVersion)\n\t}\n\treturn version, nil\n'
+_MV_DOC = '// getVerificationPlugin get plugin version from the Extended attributes.\n'
+_MV_GATE = '''			return notation.ErrorVerificationInconclusive{Msg: fmt.Sprintf("error while getting plugin minimum version, error: %s", err)}
+		}
+'''
+VARIANTS += [
+ dict(name='gm-min-version-validity-guard-never-taken', expect='flagged(plugin/min-version-wellformed)', file=H,
+      find=_MV_VALID, replace=_MV_VALID.replace('if !notationsemver.IsValid(version) {', 'if false && (!notationsemver.IsValid(version)) {'),
+      why='a minimum version that is not semver is handed on: semver.Compare orders it below every plugin version, no plugin is too old (guard mutant helpers.go:128)'),
+ dict(name='gm-min-version-validity-guard-extra-conjunct', expect='flagged(plugin/min-version-wellformed)', file=H,
+      find=_MV_VALID, replace=_MV_VALID.replace('if !notationsemver.IsValid(version) {', 'if len(version) > 5 && !notationsemver.IsValid(version) {'),
+      why='short malformed versions ("1.2") are handed on'),
+ dict(name='benign-gm-min-version-validity-inverted', expect='silent', file=H, find=_MV_VALID,
+      replace='\tif notationsemver.IsValid(version) {\n\t\treturn version, nil\n\t}\n\treturn "", fmt.Errorf("%v from extended attribute is not a valid SemVer", HeaderVerificationPluginMinVersion)\n',
+      why='the same guard with the branches exchanged'),
+ dict(name='benign-gm-min-version-validity-in-local', expect='silent', file=H, find=_MV_VALID,
+      replace=_MV_VALID.replace('if !notationsemver.IsValid(version) {', 'if wellFormed := notationsemver.IsValid(version); !wellFormed {'),
+      why='the same guard, the answer kept in a local'),
+ dict(name='benign-gm-min-version-validity-in-caller', expect='silent',
+      edits=[(H, _MV_VALID, '\treturn version, nil\n'), (H, _MV_DOC, 'var _ = notationsemver.IsValid\n\n' + _MV_DOC),
+             (V, _MV_GATE, _MV_GATE + '\t\tif err == nil && !notationsemver.IsValid(verificationPluginMinVersion) {\n\t\t\treturn notation.ErrorVerificationInconclusive{Msg: fmt.Sprintf("plugin minimum version %s is not in valid semver format", verificationPluginMinVersion)}\n\t\t}\n')],
+      why='the validity test made by the caller on the value the reader handed back'),
+ dict(name='gm-min-version-validity-in-caller-extra-conjunct', expect='flagged(plugin/min-version-wellformed)',
+      edits=[(H, _MV_VALID, '\treturn version, nil\n'), (H, _MV_DOC, 'var _ = notationsemver.IsValid\n\n' + _MV_DOC),
+             (V, _MV_GATE, _MV_GATE + '\t\tif err == nil && len(pluginConfig) > 0 && !notationsemver.IsValid(verificationPluginMinVersion) {\n\t\t\treturn notation.ErrorVerificationInconclusive{Msg: fmt.Sprintf("plugin minimum version %s is not in valid semver format", verificationPluginMinVersion)}\n\t\t}\n')],
+      why='caller shape with the guard weakened'),
+]
